@@ -49,6 +49,7 @@ type Engine struct {
 	ghostTypes map[string]types.Type
 	lastValueNames []string
 	curInstr ssa.Instruction
+	provingInv bool
 
 	MaxPaths int
 	Tier     string
